@@ -27,7 +27,7 @@ TraceSpec == TraceInit /\ [][TraceNext]_tvars
 
 Bad == CASE CHECK = "C28" -> C28Viol(Node)
          [] CHECK = "C29" -> C29Viol(Node)
-         [] CHECK = "C30" -> C30Viol(Node)
+         [] CHECK = "C30" -> C30Viol(Node) \cup (IF l = 1 THEN LogicalViol(Runs[run].logical, Runs[run].root) ELSE {})
          [] CHECK = "C53" -> C53Viol(Node)
 
 Strict == Bad = {}
